@@ -3,6 +3,7 @@ package props
 import (
 	"fmt"
 	"go/token"
+	"go/types"
 
 	"golang.org/x/tools/go/ssa"
 
@@ -25,6 +26,7 @@ func checkC16(c *chk.Ctx) {
 		"R16b a first delta of zero is rejected before a key is built",
 		"R16c subscribers are only notified with a key whose generation succeeded (and, open finding F8b, should only be notified once the batch is committed)",
 		"R16d a subscriber is registered before the current last key is read (no lost wake-up)",
+		"R16g a sequence subscriber is registered under an id taken from a monotonic generator, so that a new subscriber can never replace one that is still open",
 		"R16f every upper bound of a sequence lookup (key generation and subscriber's initial read) is built from the maximum of the suffix type (MaxUint64): no generated key can lie above the bound",
 	}
 	c.NotDec = []string{
@@ -36,6 +38,7 @@ func checkC16(c *chk.Ctx) {
 	ruleR16c(h)
 	ruleR16d(h)
 	ruleR16f(h)
+	ruleR16g(h)
 }
 
 func sequenceLookupFns(h *H) []*ssa.Function {
@@ -441,4 +444,49 @@ func throughHelperResult(v ssa.Value) (ssa.Value, func(ssa.Value) ssa.Value) {
 		return x
 	}
 	return rets[0].Results[idx], bind
+}
+
+// ruleR16g: subscribers of a prefix are kept in a map keyed by an id. The id must come
+// from a monotonic generator (atomic Add): an id derived from the current size of the map
+// is reused after another subscriber closed, the new subscriber then silently replaces
+// one that is still open, which never sees another update.
+func ruleR16g(h *H) {
+	const rule = "R16g"
+	h.Rule(rule, "K3", "every insertion of a sequence waiter into the tracker's map uses a key derived from an atomic Add on a generator field", 1)
+	n := 0
+	for _, t := range h.P.Impls("server/kv", "SequenceWaiterTracker") {
+		for _, fn := range h.P.Funcs {
+			if fn.Signature.Recv() == nil || !ir.TypeIs(fn.Signature.Recv().Type(), "server/kv", t.Obj().Name()) {
+				continue
+			}
+			ir.Instrs(fn, func(in ssa.Instruction) {
+				mu, ok := in.(*ssa.MapUpdate)
+				if !ok {
+					return
+				}
+				mt, ok := mu.Map.Type().Underlying().(*types.Map)
+				if !ok {
+					return
+				}
+				if _, isPtr := mt.Elem().Underlying().(*types.Pointer); !isPtr {
+					return // the outer map prefix -> inner map
+				}
+				n++
+				h.Fn(ir.FuncName(fn))
+				fresh := ir.DependsOn(mu.Key, func(x ssa.Value) bool {
+					c, ok := x.(*ssa.Call)
+					if !ok {
+						return false
+					}
+					f := c.Call.StaticCallee()
+					return f != nil && f.Pkg != nil && f.Pkg.Pkg.Path() == "sync/atomic" && f.Name() == "Add"
+				})
+				h.Verdict(fresh, rule, fmt.Sprintf("waiter registration #%d in %s", n, ir.FuncName(fn)), h.pos(in), "keyed by an id from a monotonic generator",
+					"the waiter is registered under "+ir.Describe(mu.Key)+", which is not taken from a monotonic generator: an id can be handed out again while its previous holder is still open, and that subscriber is replaced and never notified again")
+			})
+		}
+	}
+	if n == 0 {
+		h.Anchor(rule, "insertion of a waiter into the SequenceWaiterTracker implementation's map")
+	}
 }
